@@ -6,7 +6,7 @@
 From Coq Require Import QArith Qcanon List Lia Bool Arith.
 From PV.Base Require Import Sums ListX.
 From PV.Model Require Import NsiLang Measures MatAlg Split.
-From PV.Proofs Require Import NsiLang Split.
+From PV.Proofs Require Import NsiLang Split Measures.
 From PV.Gen Require Import NsiTerms.
 Import ListNotations.
 Open Scope Qc_scope.
@@ -794,3 +794,93 @@ Example source_example :
   vden (to_graph r) gen_nsi_local_clustering 1 /\
   vden (to_graph r) gen_nsi_local_clustering 1 <> 0.
 Proof. split; [now vm_compute | now vm_compute]. Qed.
+
+(* ---- distance based measures --------------------------------------------------- *)
+Lemma eval_Wtot G env : eval G env Wtot = sumn (gn G) (gw G).
+Proof. cbn [eval Wtot c1]. apply sumn_ext; intros; ring. Qed.
+
+Lemma distvec G f B i :
+  vden G (VMatVec (MDistFn f B) VW) i = eval G [i] (Sum (dsum f B 1 0)).
+Proof. cbn [vden mden eval]. apply sumn_ext; intros; ring. Qed.
+
+Theorem gen_nsi_harmonic_closeness_denotes G B i :
+  vden G (gen_nsi_harmonic_closeness B) i = eval G [i] (nsi_harmonic_closeness B).
+Proof.
+  unfold gen_nsi_harmonic_closeness, nsi_harmonic_closeness.
+  apply cong_div; [apply distvec | symmetry; apply eval_Wtot].
+Qed.
+
+Theorem gen_nsi_exponential_closeness_denotes G B i :
+  vden G (gen_nsi_exponential_closeness B) i = eval G [i] (nsi_exponential_closeness B).
+Proof.
+  unfold gen_nsi_exponential_closeness, nsi_exponential_closeness.
+  apply cong_div; [apply distvec | symmetry; apply eval_Wtot].
+Qed.
+
+Theorem gen_nsi_closeness_denotes G B i :
+  vden G (gen_nsi_closeness B) i = eval G [i] (nsi_closeness B).
+Proof.
+  unfold gen_nsi_closeness, nsi_closeness.
+  apply cong_mul; [reflexivity|].
+  apply cong_div; [symmetry; apply eval_Wtot | apply distvec].
+Qed.
+
+Theorem gen_nsi_average_path_length_denotes G B :
+  sden G (gen_nsi_average_path_length B) = eval G [] (nsi_average_path_length B).
+Proof.
+  unfold gen_nsi_average_path_length, nsi_average_path_length.
+  change (sumn (gn G) (fun i => gw G i * vden G (VMatVec (MDistFn (fun k => qnat (S k)) B) VW) i) /
+          sumn (gn G) (fun i => sumn (gn G) (fun j => gw G i * gw G j * eval G [j; i] (Conn B 1 0))) =
+          sumn (gn G) (fun i => gw G i * eval G [i] (Sum (Dist B 1 0))) /
+          sumn (gn G) (fun i => gw G i * sumn (gn G) (fun j => gw G j * eval G [j; i] (Conn B 1 0)))).
+  f_equal.
+  - apply sumn_ext; intros i _. now rewrite distvec.
+  - apply sumn_ext; intros i _. rewrite <- sumn_scal. apply sumn_ext; intros j _. ring.
+Qed.
+
+Theorem gen_nsi_global_efficiency_denotes G B :
+  sden G (gen_nsi_global_efficiency B) = eval G [] (nsi_global_efficiency B).
+Proof.
+  unfold gen_nsi_global_efficiency, nsi_global_efficiency, Sq.
+  change (sumn (gn G) (fun i => gw G i * vden G (VMatVec (MDistFn (fun k => 1 / qnat (S k)) B) VW) i) /
+          (sumn (gn G) (fun i => gw G i) * sumn (gn G) (fun i => gw G i)) =
+          sumn (gn G) (fun i => gw G i * eval G [i] (Sum (InvDist B 1 0))) /
+          (eval G [] Wtot * eval G [] Wtot)).
+  rewrite eval_Wtot. f_equal.
+  apply sumn_ext; intros i _. now rewrite distvec.
+Qed.
+
+Definition source_distance (B : nat) : list (vexp * expr) :=
+  [ (gen_nsi_closeness B, nsi_closeness B);
+    (gen_nsi_harmonic_closeness B, nsi_harmonic_closeness B);
+    (gen_nsi_exponential_closeness B, nsi_exponential_closeness B) ].
+
+Theorem source_distance_denote B : all_denote Ptrue (source_distance B).
+Proof.
+  unfold all_denote, source_distance.
+  repeat (apply Forall_cons; [split; [intros G i Hi _; cbn [fst snd] | ]|]);
+    try apply Forall_nil.
+  - apply gen_nsi_closeness_denotes.
+  - cbn [snd]. unfold nsi_closeness, AllConn, Conn, Wtot, c1, Dist. cbn [closedb].
+    rewrite dsum_closed by reflexivity. reflexivity.
+  - apply gen_nsi_harmonic_closeness_denotes.
+  - cbn [snd]. unfold nsi_harmonic_closeness, Wtot, c1, InvDist. cbn [closedb].
+    rewrite dsum_closed by reflexivity. reflexivity.
+  - apply gen_nsi_exponential_closeness_denotes.
+  - cbn [snd]. unfold nsi_exponential_closeness, Wtot, c1, Pow2Dist. cbn [closedb].
+    rewrite dsum_closed by reflexivity. reflexivity.
+Qed.
+
+Theorem source_distance_global_invariant G' G phi B : pullback G' G phi ->
+  sden G' (gen_nsi_average_path_length B) = sden G (gen_nsi_average_path_length B) /\
+  sden G' (gen_nsi_global_efficiency B) = sden G (gen_nsi_global_efficiency B).
+Proof.
+  intros PB. rewrite !gen_nsi_average_path_length_denotes, !gen_nsi_global_efficiency_denotes.
+  pose proof (catalogue_closed 1 B 0%nat false) as [_ [_ Hg]].
+  rewrite Forall_forall in Hg.
+  split.
+  - apply (eval_pullback G' G phi PB _ []); [|constructor].
+    apply closedb_closed, Hg. cbn. tauto.
+  - apply (eval_pullback G' G phi PB _ []); [|constructor].
+    apply closedb_closed, Hg. cbn. tauto.
+Qed.
